@@ -17,6 +17,8 @@ import (
 	"vh/crdt"
 )
 
+const c20D = 1000003 // magnitude of the second client's {+D,-D} counter units
+
 func init() {
 	// accesses made under the datatype's transaction lock
 	core.RaceLockMarkers = []string{"SentenceInTx", "DoTransaction", "ExecuteRemoteTransactionWithCtx", "(*TransactionDatatype).Rollback"}
@@ -27,7 +29,7 @@ func init() {
 		Workers:     4,
 		Race:        true,
 		CaseTimeout: 200e9,
-		Rule: "real parallel executions under the Go race detector: 2-8 goroutines issue operations and transactions (values tagged goroutine x counter) on ONE datatype of each type while a background goroutine syncs it with the real service and, in half of the rounds, a second client's operations arrive; yields / sleeps are injected at the BeginTransaction / unlock hook points with seeded probabilities; a pack observer builds push packs in a tight loop meanwhile. Monitors: every pack the observer or a sync builds holds whole transaction units only; conservation (counter = sum of the deltas of calls that returned success, plus the remote deltas; for the other types the final state equals the replay of the stored log, which holds exactly one operation per successful call); exactly-once and identifier order (the client's stored operations carry seq 1..n without gap or repeat and strictly increasing clocks); transaction contiguity (each TRANSACTION header is followed by exactly NumOfOps-1 operations, all carrying tags of the issuing goroutine); isolation inside a transaction body (a counter read-modify-read sequence sees only its own writes); linearizability of return values in rounds without a second client (porcupine: counter IncreaseBy -> new value; map Put/Remove -> previous value, per key); no deadlock / panic (watchdog, worker crash); race-detector reports attributed to orda code, keyed by the unordered pair of innermost orda functions; " +
+		Rule: "real parallel executions under the Go race detector: 2-8 goroutines issue operations and transactions (values tagged goroutine x counter) on ONE datatype of each type while a background goroutine syncs it with the real service and, in half of the rounds, a second client's operations arrive; yields / sleeps are injected at the BeginTransaction / unlock hook points with seeded probabilities; a pack observer builds push packs in a tight loop meanwhile. Monitors: every pack the observer or a sync builds holds whole transaction units only; conservation (counter = sum of the deltas of calls that returned success, plus the remote deltas; for the other types the final state equals the replay of the stored log, which holds exactly one operation per successful call); exactly-once and identifier order (the client's stored operations carry seq 1..n without gap or repeat and strictly increasing clocks); transaction contiguity (each TRANSACTION header is followed by exactly NumOfOps-1 operations, all carrying tags of the issuing goroutine); isolation inside a transaction body (a counter read-modify-read sequence sees only its own writes; the second client's recognisable units - {+D,-D} pairs on a counter, six keys written to one value on a map / document - are never seen half-applied by reads inside a local transaction); linearizability of return values in rounds without a second client (porcupine: counter IncreaseBy -> new value; map Put/Remove -> previous value, per key); no deadlock / panic (watchdog, worker crash); race-detector reports attributed to orda code, keyed by the unordered pair of innermost orda functions; " +
 			"non-trivial = >= 3 goroutines completed >= 5 calls each while >= 1 background sync applied a response; distinct = hash of the emitted (goroutine-tag) sequence, i.e. the interleaving actually observed",
 		Assumptions: []string{
 			"the application goroutines use the public mutators and transactions; getters are called only inside transaction bodies or after the goroutines have joined",
@@ -183,6 +185,11 @@ func runC20(c *core.Case) *core.Result {
 							k = 12 + rr.Intn(20) // a long unit: its hand-over to the pending buffer takes a while
 						}
 						err := t.Transaction("t", func(tx orda.CounterInTx) error {
+							// the second client's units are {+D,-D} pairs: applied as a whole they never
+							// leave a value of that magnitude behind
+							if v := tx.Get(); v > c20D/2 || v < -c20D/2 {
+								fail("remote-unit-half-applied:counter", "inside a transaction body of goroutine %d the counter reads %d: a transaction unit of the second client ({+%d,-%d} pairs) is applied in part", gi, v, c20D, c20D)
+							}
 							for j := 0; j < k; j++ {
 								before := tx.Get()
 								nv, e := tx.IncreaseBy(delta)
@@ -217,6 +224,10 @@ func runC20(c *core.Case) *core.Result {
 					if inTx {
 						n1, n2 := tag(n*10), tag(n*10+1)
 						err := t.Transaction("t", func(tx orda.MapInTx) error {
+							// the second client writes uA..uF to one value in one unit
+							if a, f := tx.Get("uA"), tx.Get("uF"); a != f {
+								fail("remote-unit-half-applied:map", "inside a transaction body of goroutine %d: uA=%v but uF=%v - the second client writes both in ONE transaction unit", gi, a, f)
+							}
 							if _, e := tx.Put(k, n1); e != nil {
 								return e
 							}
@@ -290,6 +301,16 @@ func runC20(c *core.Case) *core.Result {
 				case orda.Document:
 					if inTx {
 						err := t.Transaction("t", func(tx orda.DocumentInTx) error {
+							var a, f interface{}
+							if x, e := tx.GetFromObject("uA"); e == nil && x != nil {
+								a = x.GetValue()
+							}
+							if x, e := tx.GetFromObject("uF"); e == nil && x != nil {
+								f = x.GetValue()
+							}
+							if a != f {
+								fail("remote-unit-half-applied:doc", "inside a transaction body of goroutine %d: uA=%v but uF=%v - the second client writes both in ONE transaction unit", gi, a, f)
+							}
 							if _, e := tx.PutToObject(fmt.Sprintf("g%d", gi), tag(n*10)); e != nil {
 								return e
 							}
@@ -378,7 +399,8 @@ func runC20(c *core.Case) *core.Result {
 			time.Sleep(200 * time.Microsecond)
 		}
 	}()
-	var remoteDelta int64
+	var remoteDelta, remoteUnits int64
+	defer func() { c.Count("second_client_units", atomic.LoadInt64(&remoteUnits)) }()
 	if withRemote {
 		bg.Add(1)
 		go func() {
@@ -390,6 +412,40 @@ func runC20(c *core.Case) *core.Result {
 				case <-done:
 					return
 				default:
+				}
+				if unit := rr.Intn(2) == 0; unit {
+					// a recognisable all-or-nothing unit (see the reads inside the local transactions)
+					v := fmt.Sprintf("U%d", n)
+					keys := []string{"uA", "uB", "uC", "uD", "uE", "uF"}
+					switch t := od.DT.(type) {
+					case orda.Counter:
+						t.Transaction("u", func(tx orda.CounterInTx) error {
+							for j := 0; j < 6; j++ {
+								tx.IncreaseBy(c20D)
+								tx.IncreaseBy(-c20D)
+							}
+							return nil
+						})
+					case orda.Map:
+						t.Transaction("u", func(tx orda.MapInTx) error {
+							for _, k := range keys {
+								tx.Put(k, v)
+							}
+							return nil
+						})
+					case orda.Document:
+						t.Transaction("u", func(tx orda.DocumentInTx) error {
+							for _, k := range keys {
+								tx.PutToObject(k, v)
+							}
+							return nil
+						})
+					default:
+						unit = false
+					}
+					if unit {
+						atomic.AddInt64(&remoteUnits, 1)
+					}
 				}
 				if cn, ok := od.DT.(orda.Counter); ok {
 					dl := int32(rr.Intn(5))
